@@ -52,6 +52,7 @@ def run(prog, R, tier="quick", only_rule=None):
     c10c(prog, R)
     c10d(prog, R)
     c10e(prog, R)
+    c10f(prog, R)
 
 
 def check_set(prog):
@@ -334,3 +335,43 @@ def c10e(prog, R):
                 "%s|inserted block derives from Block::from_file" % f.path,
                 "the cached block is not the verified one", f.where(c.bb), str(arg))
     r.floor(2)
+
+
+FATE_EXEMPT = {}
+
+
+def c10f(prog, R):
+    """A detected corruption must reach the caller: the Result of every call that may fail an integrity check is
+    propagated, returned or unwrapped — never turned into None / a default / 'iterator exhausted'."""
+    from rules.engine import MaySet, result_fate, TRY_BRANCH, RESULT_ADAPTORS
+    r = R.rule("C10.f", "integrity errors are propagated, never swallowed", "E")
+    may = MaySet(prog, [CHECK], "may fail an integrity check")
+    n = 0
+    for p, f in sorted(prog.fns.items()):
+        if f.derived:
+            continue
+        for c in f.calls:
+            if not c.dest or "p" in c.dest:
+                continue
+            ty = f.local_ty(c.dest["l"])
+            if not ty.startswith("std::result::Result<"):
+                continue
+            if c.path == TRY_BRANCH or c.is_to(*RESULT_ADAPTORS):
+                continue
+            if not may.call_in(c):
+                continue
+            n += 1
+            fates = result_fate(f, c)
+            sw = sorted(x for x in fates if x.startswith("swallowed"))
+            root = prog.fns.get(f.root, f).path
+            if sw and not (fates & {"propagated", "returned", "panics"}):
+                if (root, c.sres) in FATE_EXEMPT:
+                    r.ok("%s|drops the error of %s|exempt" % (root, short(c.sres)), FATE_EXEMPT[(root, c.sres)])
+                else:
+                    r.bad("%s|drops the error of %s" % (root, short(c.sres)),
+                          "the result of a read that can fail its checksum is discarded (%s): a corrupted block turns into "
+                          "'not found' / 'end of data' instead of an error" % ", ".join(sw), f.where(c.bb))
+    r.ok("census|%d calls that may fail an integrity check" % (n // 20 * 20), "%d call sites classified" % n, nontrivial=False)
+    if n < 80:
+        r.anchor_missing("calls that may fail an integrity check (found %d)" % n)
+    r.floor(1)
